@@ -46,7 +46,7 @@ _Bool TRACE_is_enabled(void) __CPROVER_requires(1) __CPROVER_assigns()
 
 /* PajeEvent::print (virtual; writes one line of the trace): observed through the ghost log */
 void PajeEvent__print(struct PajeEvent* self)
-    __CPROVER_requires(g_nlog < QSZ) __CPROVER_assigns(g_nlog, g_log[g_nlog])
+    __CPROVER_requires(g_nlog < QSZ) __CPROVER_assigns(g_nlog, VF_PT(g_log[g_nlog]))
     __CPROVER_ensures(g_nlog == __CPROVER_old(g_nlog) + 1 && g_log[__CPROVER_old(g_nlog)] == self && vf_exc == 0);
 
 /* ---------------- insert_into_buffer ------------------------------------------------------------------------- */
